@@ -11,7 +11,7 @@ SPEC = dict(
              dict(name='ctlrun', drv_mod='Drv.CtlRun', drv_file='Drv/CtlRun.v', shard=50,
                   args={'quick': ['reps=1'], 'thorough': ['reps=6']}, timeout={'quick': 600, 'thorough': 1800}),
              dict(name='daemon', drv_mod='Drv.Daemon', drv_file='Drv/Daemon.v', shard=50,
-                  args={'quick': ['n=16'], 'thorough': ['n=200']}, timeout={'quick': 600, 'thorough': 3000})],
+                  args={'quick': ['n=16', 'long=0'], 'thorough': ['n=200', 'long=1']}, timeout={'quick': 600, 'thorough': 3000})],
     rule='faults: closed loops of 6 cycles through the real updateSensor / measureRpm / UpdateFanSpeed (+ restorePwmEnabled on error) for '
          'hwmon/file/cmd fan x hwmon/file/cmd sensor x {linear, PID, function(max) of both, nested function with a PID leaf, nested function of linear leaves}; '
          'every single fault (kind x component x cycle; quick: every (combination, fault) at a seeded cycle plus random fill-up), sampled pairs, fault storms, '
@@ -22,7 +22,8 @@ SPEC = dict(
          'whitespace-only content is forced for every file read kind (sensor, rpm, pwm, pwm_enable read-back; regime and per-operation). Observer clause "with the last good data": the sensor-monitor poll (the real updateSensor, all three '
          'sensor backends) of a cycle with a sensor fault leaves the moving average bit-identical, a good poll moves it by UpdateSimpleMovingAvg of the value shown. Observer clause "keeps regulating with the last good data": every cycle that ended without error and without a PWM-write fault (per-operation plans: without any fault) must leave the device at the PWM-map output of that cycle\'s request. sensmon: the real sensor monitor actor (NewSensorMonitor(...).Run with its ticker, 2 ms rate) on real hwmon/file/cmd sensors through fault-then-recovery poll sequences '
          '(1-3 good, 1-5 failed or garbage, then at least as many good polls; two bursts): no panic, all planned polls happen, it stops when cancelled, every observed average follows from the previous one with the last good data. '
-         'The escape "last-resort write failed" of a stop is only accepted when the operation log shows that the original mode was asked for first. daemon: process-level runs of the real RunDaemon (see C03) where a panic would be in another goroutine '
+         'Observer clause "never a made-up request": a cycle whose curve evaluation failed (sensor fault under a curve with a PID leaf) either stops regulation or keeps the request of the previous good cycle; '
+         'single transient sensor faults under PID / function-of-PID / nested-PID curves for the direct and the PID control algorithm are generated explicitly. The escape "last-resort write failed" of a stop is only accepted when the operation log shows that the original mode was asked for first. daemon: process-level runs of the real RunDaemon (see C03) where a panic would be in another goroutine '
          '(scenario 5: a controller fails its initialisation; 6/7: the sensor of a PID curve fails while regulating). ctlrun: the real Run in-process (see C03), incl. a control '
          'error while the device directory has vanished, so that the writes of restorePwmEnabled fail too (a panic inside Run is recovered and reported). Non-trivial = at least one fault in the plan; distinct = distinct case terms.',
     assumptions=[
